@@ -58,6 +58,10 @@ pub struct Case {
     pub outstanding: u8,
     /// where inside the hello / reply the stream is cut (fraction)
     pub cut: u16,
+    /// (clean only) end of stream without closing the connection: close_notify with TCP left
+    /// open / SSH channel EOF without close / child closes stdout and lives on
+    #[serde(default)]
+    pub half: bool,
 }
 
 pub fn bound() -> Duration {
@@ -83,8 +87,13 @@ fn script_for(case: &Case) -> (Script, PreClose) {
     let hello = hello_bytes(&[BASE10, CAP_CANDIDATE], 9);
     let k = case.outstanding.max(1) as usize;
     let cut = |len: usize| ((case.cut as usize * len) >> 16).clamp(1, len - 1);
-    let close = Step::Close {
-        abrupt: case.abrupt,
+    let half = case.half && !case.abrupt && !matches!(case.point, Point::AfterAccept | Point::DuringHandshake);
+    let close = if half {
+        Step::HalfClose
+    } else {
+        Step::Close {
+            abrupt: case.abrupt,
+        }
     };
     let mut steps = Vec::new();
     let pre = match case.point {
@@ -138,6 +147,10 @@ fn script_for(case: &Case) -> (Script, PreClose) {
             steps.push(Step::PauseMs(20));
             steps.push(close);
         }
+    }
+    if half {
+        // keep the connection until the client goes away (or well past the bound)
+        steps.push(Step::HoldMs(3 * bound().as_millis() as u64));
     }
     (Script { steps }, pre)
 }
@@ -344,7 +357,13 @@ fn judge(case: &Case, out: &Outcome, obs: &mut Obs) {
     let key = format!(
         "{t}:{:?}:{}",
         case.point,
-        if case.abrupt { "abrupt" } else { "clean" }
+        if case.abrupt {
+            "abrupt"
+        } else if case.half {
+            "end-of-stream-only"
+        } else {
+            "clean"
+        }
     );
     let pending: Vec<&(String, bool, String, u64)> = out.ops.iter().filter(|o| !o.1).collect();
     if !pending.is_empty() {
@@ -417,8 +436,9 @@ impl Prop for C07 {
         "transport {TLS, SSH, local CLI} x close point {after TCP accept, during the TLS/SSH \
          handshake, before the hello, inside the hello, idle after the hello, after receiving the \
          requests, inside a reply, after the first of several replies} x manner {clean: \
-         close_notify+FIN / channel EOF+close / child exit; abrupt: TCP reset / SIGKILL of the \
-         child} x outstanding requests {0, 1, 3}: enumerated completely; cut positions inside the \
+         close_notify+FIN / channel EOF+close / child exit; clean, end of stream only: close_notify \
+         with the TCP connection left open / channel EOF without close / child closes stdout and \
+         lives on; abrupt: TCP reset / SIGKILL of the child} x outstanding requests {0, 1, 3}: enumerated completely; cut positions inside the \
          hello / reply are generated. Oracle: establishment, every pending reply and one \
          subsequent request complete within the bound (10 s) with an error (or the value the peer \
          did send), and the process does not burn CPU while waiting. Non-trivial = the peer closes \
@@ -461,7 +481,18 @@ impl Prop for C07 {
                             abrupt,
                             outstanding: *k,
                             cut: 32768,
+                            half: false,
                         });
+                        if !abrupt && !matches!(point, Point::AfterAccept | Point::DuringHandshake) {
+                            out.push(Case {
+                                transport,
+                                point,
+                                abrupt,
+                                outstanding: *k,
+                                cut: 32768,
+                                half: true,
+                            });
+                        }
                     }
                 }
             }
@@ -475,8 +506,9 @@ impl Prop for C07 {
             any::<bool>(),
             prop_oneof![Just(0u8), Just(1u8), Just(3u8)],
             any::<u16>(),
+            prop::bool::weighted(0.4),
         )
-            .prop_map(|(transport, p, abrupt, outstanding, cut)| {
+            .prop_map(|(transport, p, abrupt, outstanding, cut, half)| {
                 let mut point = POINTS[p];
                 if transport == Tr::Local
                     && matches!(point, Point::AfterAccept | Point::DuringHandshake)
@@ -489,6 +521,7 @@ impl Prop for C07 {
                     abrupt,
                     outstanding,
                     cut,
+                    half: half && !abrupt,
                 }
             })
             .boxed()
@@ -497,7 +530,13 @@ impl Prop for C07 {
         let mut obs = Obs::default();
         obs.class(format!("transport:{:?}", case.transport));
         obs.class(format!("point:{:?}", case.point));
-        obs.class(if case.abrupt { "abrupt" } else { "clean" });
+        obs.class(if case.abrupt {
+            "abrupt"
+        } else if case.half {
+            "clean:end-of-stream-only(connection left open)"
+        } else {
+            "clean"
+        });
         obs.nontrivial = matches!(
             case.point,
             Point::InsideHello | Point::AfterRequests | Point::InsideReply | Point::AfterFirstReply
